@@ -1,6 +1,6 @@
 (** Run/C03.v — wire-format entry point for the C03 models.
     input  (op seq wr_table)   wr_table = ((us us_written) ...)
-    op 1   writer glue          -> (res (scales oldest first) tsigs ksigs instrs)
+    op 1   writer glue          -> (ties (res (scales oldest first) tsigs ksigs instrs))
     op 2   write ; channel ; read -> (status pre_ok ties notes ccs bends tempos tsigs ksigs total tpq)
     op 3   as op 2 with the code before notes/C03-fix-2.diff (instrument 0 reuse) — not used by the check *)
 From Coq Require Import ZArith List Bool.
@@ -67,7 +67,7 @@ Definition run (x : sx) : sx :=
   let s := xSeq (xnth 1 x) in
   let wr := lookup (xTable (xnth 2 x)) in
   match xZ (xnth 0 x) with
-  | 1 => oPm (write s)
+  | 1 => L [I (count_ties s); oPm (write s)]
   | 2 => run_rt true s wr
   | 3 => run_rt false s wr
   | _ => oErr 1
